@@ -695,3 +695,32 @@ def c18o(ctx):
         ok = all('/srv' not in rx.sub('', s_) and 'C:' not in rx.sub('', s_) for s_ in samples)
     ctx.check(ok, 'error_text_without_file_names:strips-file-references', 'quoted names, object reprs and bare paths are removed from the text', hp,
               fail='error_text_without_file_names does not remove file references from the exception text')
+
+
+@rule('C18.p', floor=3)
+def c18p(ctx):
+    """what the request controls is escaped before it stands in a document: the KML documents carry the URL of the service (host and
+    scheme come from X-Forwarded-Host / X-Forwarded-Proto) in the href of every NetworkLink and every GroundOverlay.  Either the server
+    hands the renderer the URL already escaped (escape_html(script_url)), or every href the renderer writes is escaped where it is
+    built -- one of the two for *all* hrefs (an escape moved into the renderer for one loop and forgotten for the other leaves the
+    GroundOverlay links raw: a host `h</href><x/>` adds elements to the document)"""
+    srv = ctx.fn('mapproxy/service/kml.py:KMLServer.kml')
+    rnd = ctx.fn('mapproxy/service/kml.py:KMLRenderer.render')
+    calls = [x for x in srv.walk() if isinstance(x, ast.Call) and isinstance(x.func, ast.Attribute) and x.func.attr == 'render' and keyword(x, 'url') is not None]
+    if not calls:
+        raise Undecided('KMLServer.kml: render(url=...) not found')
+    pre = all(is_call(srv.canon.expr(keyword(x, 'url')), 'escape_html') for x in calls)
+    hrefs = []
+    for x in rnd.walk():
+        if isinstance(x, ast.Call) and call_name(x) == 'dict':
+            for k in x.keywords:
+                if k.arg == 'href':
+                    hrefs.append((k.value, x))
+    if len(hrefs) < 2:
+        raise Undecided('KMLRenderer.render: %d href substitutions found' % len(hrefs))
+    for i, (v, node) in enumerate(hrefs):
+        c = rnd.ctext(v, at=rnd.cfg.node_for(node))
+        own = c.startswith('escape_html(')
+        ctx.check(pre or own, 'KMLRenderer.render:href#%d:escaped' % (i + 1), 'the href is escaped (by the server for the whole URL, or here)', rnd, node,
+                  fail='the href %s is written into the KML document without escape_html: the host of the request ends up raw in the XML' % c[:60])
+    ctx.check(True, 'KMLServer.kml:url-source', 'url handed to the renderer: %s' % ('escaped by the server' if pre else 'raw, escaped per href'), srv)
